@@ -36,7 +36,7 @@ META = {
                     'the objects keep their relative order across the P orders (only reference positions move)',
                     'the "printed number" clause is checked as self-consistency with the target; whether that number is '
                     'LaTeX\'s is C08 (not applicable)'],
-    'probe_names': ['label_on_empty_caption', 'label_on_display_row', 'label_inside_caption', 'label_after_closed_inner_env', 'label_on_unnumbered_heading', 'ref_in_title', 'ref_in_footnote', 'forward_ref', 'backward_ref', 'inside_ref', 'two_pending_same_label', 'dangling_ref',
+    'probe_names': ['label_on_empty_caption', 'chapter_numbers_two_digits_and_appendix', 'label_on_display_row', 'label_inside_caption', 'label_after_closed_inner_env', 'label_on_unnumbered_heading', 'ref_in_title', 'ref_in_footnote', 'forward_ref', 'backward_ref', 'inside_ref', 'two_pending_same_label', 'dangling_ref',
                     'pageref', 'label_on_item', 'label_on_caption', 'label_on_theorem', 'unlabelled_between'],
     'shrink_budget': 300,
 }
@@ -347,8 +347,89 @@ def run_doc(events, objs):
 
 # --------------------------------------------------------------------------
 
+# --------------------------------------------------------------------------
+# chapter-based classes: numbers with two parts, chapter 10 and beyond (a "0." inside a number), the appendix (letters)
+
+def enumerate_cases(base_seed, tier):
+    out = []
+    for cls in ('book', 'report'):
+        for n in ((11, 21) if tier == 'thorough' else (11,)):
+            out.append({'property': PID, 'seed': core.h64('C09-book', cls, n), 'swarm': {'book': cls, 'transports': ['doc']},
+                        'ops': [{'op': 'BOOK', 'chapters': n}]})
+    return out
+
+
+def _book_source(cls, n):
+    chapters = list(range(1, n + 1)) + ['A']
+    L = ['\\documentclass{%s}\\newtheorem{thm}{Theorem}[section]\\begin{document}' % cls]
+    want = {}
+
+    def refs(tag):
+        for c in chapters:
+            keys = ['ch', 'se', 'fi'] + (['fj', 'ta', 'eq', 'th'] if c != 'A' else [])
+            L.append('%s ' % tag + ' '.join('\\ref{%s%s}' % (k, c) for k in keys) + '.')
+            L.append('')
+    refs('Forward')
+    for c in chapters:
+        if c == 'A':
+            L.append('\\appendix')
+        L.append('\\chapter{C%s}\\label{ch%s}' % (c, c))
+        L.append('\\section{S%s}\\label{se%s}' % (c, c))
+        L.append('\\begin{figure}F\\caption{X}\\label{fi%s}\\end{figure}' % c)
+        want['ch%s' % c], want['se%s' % c], want['fi%s' % c] = str(c), '%s.1' % c, '%s.1' % c
+        if c != 'A':
+            L.append('\\begin{figure}F\\caption{Y}\\label{fj%s}\\end{figure}' % c)
+            L.append('\\begin{table}T\\caption{X}\\label{ta%s}\\end{table}' % c)
+            L.append('\\begin{equation}a=b\\label{eq%s}\\end{equation}' % c)
+            L.append('\\begin{thm}t\\label{th%s}\\end{thm}' % c)
+            want['fj%s' % c], want['ta%s' % c], want['th%s' % c] = '%s.2' % c, '%s.1' % c, '%s.1.1' % c
+            if cls == 'book':
+                want['eq%s' % c] = '%s.1' % c        # (plasTeX's report class prints the bare equation number: not judged)
+    refs('Backward')
+    L.append('\\end{document}')
+    return '\n'.join(L), want
+
+
+def execute_book(record, res):
+    from plasTeX.TeX import TeX
+    viol, log = [], []
+    for op in record['ops']:
+        if op.get('op') != 'BOOK':
+            continue
+        src, want = _book_source(record['swarm']['book'], op['chapters'])
+        tex = TeX()
+        tex.input(src)
+        doc = tex.parse()
+        n = 0
+        for r in doc.getElementsByTagName('ref'):
+            lab = _str(r.attributes['label'])
+            t = r.idref.get('label')
+            num = _str(t.ref.textContent) if getattr(t, 'ref', None) is not None else None
+            tid = _str(getattr(t, 'id', None))
+            n += 1
+            log.append([lab, tid, num])
+            if tid != lab or getattr(t, 'parentNode', None) is None:
+                viol.append({'sig': 'C09|target|unresolved|book', 'detail': {'label': lab, 'target_id': tid, 'class': record['swarm']['book']}})
+                break
+            if lab in want and num != want[lab]:
+                viol.append({'sig': 'C09|number|%s' % {'ch': 'chapter', 'se': 'section', 'fi': 'figure', 'fj': 'figure', 'ta': 'table', 'eq': 'equation', 'th': 'theorem'}[lab[:2]],
+                             'detail': {'label': lab, 'expected_number': want[lab], 'got': num, 'class': record['swarm']['book']}})
+                break
+        res['sub_evaluations'] = res.get('sub_evaluations', 0) + n
+        res['sub_distinct'] = res.get('sub_distinct', 0) + n
+    res['violations'] = viol
+    res['probes'] = {'chapter_numbers_two_digits_and_appendix': 1}
+    res['nontrivial'] = True
+    res['steps'] = len(log)
+    res['digest'] = core.hexdigest([record['swarm'], record['ops']])
+    res['log_digest'] = core.hexdigest(log)
+    return res
+
+
 def execute(record):
     res = core.empty_result()
+    if record['swarm'].get('book'):
+        return execute_book(record, res)
     objs = [o for o in record['ops'] if o.get('op') == 'OBJ']
     refs = [o for o in record['ops'] if o.get('op') == 'REF']
     P = record['swarm'].get('P', 4)
